@@ -53,6 +53,15 @@ Theorem c43_update_in_sync_guarded : forall sc crit sets r,
 Proof. exact update_in_sync. Qed.
 Print Assumptions c43_update_in_sync_guarded.
 
+(* the loop over the matched objects carries a "to_expire" variable from one object to the next; with
+   evaluable SET clauses it stays empty, so every matched object is treated like the first (the theorem above
+   therefore holds for each object of a multi-row UPDATE) *)
+Theorem c43_update_loop_stateless_guarded : forall sc sets o,
+  forallb (fun cv => check sc (snd cv)) sets = true ->
+  snd (apply_sets_st sc sets [] o) = [] /\ fst (apply_sets_st sc sets [] o) = apply_sets sc sets o.
+Proof. exact apply_sets_st_evaluable. Qed.
+Print Assumptions c43_update_loop_stateless_guarded.
+
 (* DELETE: the object leaves the session exactly when its row is deleted *)
 Theorem c43_delete_in_sync_guarded : forall sc crit r,
   row_ok sc r -> wt sc crit = Some TyBool -> guard crit r = true ->
